@@ -13,9 +13,8 @@ pub struct V7Parser;
 impl V7Parser {
 //@ fn src/static_versions/v7.rs - /impl V7Parser/ parse
 //@   contract: stubs/v7parser_parse.rs
-//@   closure 0: p | -> (o: ParsedNetflow) ensures o.remaining@ == p.0@, o.result == NetflowPacket::V7(p.1)
-//@   closure 1: - | -> (o: NetflowParseError) ensures o matches NetflowParseError::Partial(pp) && pp.version == 7 && pp.remaining@ =~= packet@
-//@   before "V7::parse(packet)": broadcast use lemma_cloned_u8;
+//@   prerules: R30
+//@   bodystart: broadcast use lemma_cloned_u8;
 //@ end
 }
 } // verus!
